@@ -37,14 +37,12 @@ Print Assumptions C03_skip_stable.
    (every mode except --ignore-times) *)
 Theorem C03_rerun_plans_skip : forall refuse ds c now U keep src dst,
   src_wf src -> c_dry_run c = false -> c_ignore_times c = false -> dst [] = None ->
-  (forall e, In e src -> se_is_dir e = true -> forall cc s t, dst (se_path e) <> Some (File cc s t)) ->
-  (forall e, In e src -> se_is_dir e = false -> dst (se_path e) <> Some Dir) ->
   let r := run refuse ds c now U keep src dst in
   r_refused r = false -> r_errors r = [] ->
   forall e, In e src -> t_action (plan_entry c ds (r_fs r) e) = ASkip.
 Proof.
-  intros refuse ds c now U keep src dst Hwf Hdry Hit Hroot Hnf Hnd2 r Href Herr e He.
-  destruct (run_post refuse ds c now U keep src dst Hwf Hdry Hroot Hnf Hnd2 Href Herr e He) as (x & Hx & Hg).
+  intros refuse ds c now U keep src dst Hwf Hdry Hit Hroot r Href Herr e He.
+  destruct (run_post refuse ds c now U keep src dst Hwf Hdry Hroot Href Herr e He) as (x & Hx & Hg).
   fold r in Hx. unfold good in Hg. destruct (se_is_dir e) eqn:Hd.
   - subst x. apply C03_dir_then_skip; assumption.
   - destruct (needs c ds dst e) eqn:En.
@@ -57,13 +55,11 @@ Print Assumptions C03_rerun_plans_skip.
 (* ... and with --delete the re-run has nothing left to delete, under any filter: what the first run left has a counterpart in the source scan *)
 Theorem C03_rerun_plans_no_deletion : forall refuse ds c now U keep src dst,
   src_wf src -> c_dry_run c = false -> c_delete c = true -> dst [] = None ->
-  (forall e, In e src -> se_is_dir e = true -> forall cc s t, dst (se_path e) <> Some (File cc s t)) ->
-  (forall e, In e src -> se_is_dir e = false -> dst (se_path e) <> Some Dir) ->
   let r := run refuse ds c now U keep src dst in
   r_refused r = false -> r_errors r = [] ->
   plan_deletions (keep ++ src) (filter (fun p => match r_fs r p with Some _ => true | None => false end) U) = [].
 Proof.
-  intros refuse ds c now U keep src dst Hwf Hdry Hdel Hroot Hnf Hnd2 r Href Herr.
+  intros refuse ds c now U keep src dst Hwf Hdry Hdel Hroot r Href Herr.
   unfold plan_deletions. destruct (filter _ (filter _ U)) as [|q l] eqn:E; [reflexivity|]. exfalso.
   assert (Hq : In q (q :: l)) by (left; reflexivity). rewrite <- E in Hq. apply filter_In in Hq. destruct Hq as [Hq Hn].
   apply filter_In in Hq. destruct Hq as [HqU Hs].
